@@ -1127,10 +1127,17 @@ def ubx_skip(eng: Engine, ctx: Ctx, rid: str, model: ReaderModel):
     ubx_hdr = bytes(fr["sync"])
     calls = [e for e in model.se.effects if e.kind == "call" and is_self_call(e.term, f.name)]
     ctx.check(len(calls) == 1, rid, rd.qualname, "UBX skipper call sites", expected="1", found=str(len(calls)), **eng.loc(rd, rd.node))
+    H = _two_byte_header(model)
     for e in calls:
-        ok = any(c[0] == "cmp" and c[1] == "==" and pol and ((is_const(c[3]) and c[3][1] == ubx_hdr) or (is_const(c[2]) and c[2][1] == ubx_hdr)) for c, pol in e.guards)
-        ctx.check(ok, rid, rd.qualname, "UBX branch condition", expected=f"header == {ubx_hdr!r}", found=guard_text(e.guards)[-120:], **eng.loc(rd, e.node))
+        ok = any(c[0] == "cmp" and c[1] == "==" and pol and ((is_const(c[3]) and c[3][1] == ubx_hdr and c[2] == H) or (is_const(c[2]) and c[2][1] == ubx_hdr and c[3] == H)) for c, pol in e.guards)
+        ctx.check(ok, rid, rd.qualname, "UBX branch condition", expected=f"<the two header bytes read> == {ubx_hdr!r}", found=guard_text(e.guards)[-120:], **eng.loc(rd, e.node))
+        ctx.check(e.term[3][:1] == (H,), rid, rd.qualname, "UBX skipper receives the header", expected="the two header bytes read", found=show(e.term[3][0])[:60] if e.term[3] else "-", **eng.loc(rd, e.node))
         _ends_in_continue(eng, ctx, rid, model, e, "UBX")
+
+
+def _two_byte_header(model):
+    """The term for the two header bytes of the current iteration: what the frame assembler is given (byte1 + byte2)."""
+    return model.asm_calls[0].term[3][0] if model.asm_calls and model.asm_calls[0].term[3] else None
 
 
 def _ends_in_continue(eng, ctx, rid, model, call_effect, label):
@@ -1181,9 +1188,11 @@ def nmea_skip(eng: Engine, ctx: Ctx, rid: str, model: ReaderModel):
     rd = model.read
     calls = [e for e in model.se.effects if e.kind == "call" and is_self_call(e.term, f.name)]
     ctx.check(len(calls) == 1, rid, rd.qualname, "NMEA skipper call sites", expected="1", found=str(len(calls)), **eng.loc(rd, rd.node))
+    H = _two_byte_header(model)
     for e in calls:
-        ok = any(c[0] == "cmp" and c[1] == "in" and pol and c[3][0] == "gval" and c[3][1].v is hdrs for c, pol in e.guards)
-        ctx.check(ok, rid, rd.qualname, "NMEA branch condition", expected="header in NMEA_HDR", found=guard_text(e.guards)[-100:], **eng.loc(rd, e.node))
+        ok = any(c[0] == "cmp" and c[1] == "in" and pol and c[3][0] == "gval" and c[3][1].v is hdrs and c[2] == H for c, pol in e.guards)
+        ctx.check(ok, rid, rd.qualname, "NMEA branch condition", expected="<the two header bytes read> in NMEA_HDR", found=guard_text(e.guards)[-100:], **eng.loc(rd, e.node))
+        ctx.check(e.term[3][:1] == (H,), rid, rd.qualname, "NMEA skipper receives the header", expected="the two header bytes read", found=show(e.term[3][0])[:60] if e.term[3] else "-", **eng.loc(rd, e.node))
         _ends_in_continue(eng, ctx, rid, model, e, "NMEA")
     # line primitive
     ls = eng.symeval(lp.qualname)
